@@ -2,7 +2,7 @@
 # Developer tool: refone.sh <Rnn-k> [props...] -- applies a behaviour-preserving refactoring from /tmp/refac/out (or benign/<id>), runs checks (all by default), reverts
 cd /verif; ./run.sh build >/dev/null 2>&1
 id=$1; shift
-p=/tmp/refac/out/${id%-*}/${id#*-}/patch.diff; [ -f $p ] || p=/tmp/refac2/out/${id%-*}/${id#*-}/patch.diff
+p=/tmp/refac/out/${id%-*}/${id#*-}/patch.diff; [ -f $p ] || p=/tmp/refac2/out/${id%-*}/${id#*-}/patch.diff; [ -f $p ] || p=/tmp/refac3/out/${id%-*}/${id#*-}/patch.diff
 [ -f $p ] || p=/verif/benign/$id/patch.diff
 git -C /repo status --short | grep -q . && { echo "/repo dirty"; exit 1; }
 mkdir -p /tmp/refcheck; cp known_findings.json /tmp/refcheck/
